@@ -85,6 +85,7 @@ PROP['theorems'] = PROP['theorems'] + [
     'Fit.C06.C06_go2lean_bool_marshal',
     'Fit.C06.C06_go2lean_bool_unmarshal',
     'Fit.C06.C06_go2lean_scalar_marshal',
-    'Fit.C06.C06_go2lean_sliceBool_marshal']
+    'Fit.C06.C06_go2lean_sliceBool_marshal',
+    'Fit.C06.C06_go2lean_sliceUint_marshal']
 PROP['trusted_base'] = PROP['trusted_base'] + [
-    "translators/go2lean re-translates the statement blocks that clamp a typedef.Bool (proto/value.go Bool: `num := uint64(v); if v > 1 {…}`; proto/value_marshal.go case TypeBool; proto/value_unmarshal.go the body of the loop over a bool array) and the eight fixed-width scalar cases + the bool-array case of Value.MarshalAppend (if arch == LittleEndian { b = binary.LittleEndian.AppendUintN(b, uintN(v.num)) } else {…}; return b, nil), selected by function name + assigned variable from the current source on every run (unit protomarshal); C06_go2lean_bool_* state that they equal Fit.Value.mkBool / boolByte / clampBool for every byte, resp. append Fit.Value.enc w arch n (what Fit.Value.marshal gives) for every v.num, byte order and buffer; additionally trusted: the rendering of binary.LittleEndian/BigEndian.AppendUint16/32/64 as Go.le16 … Go.be64 (FitModel/GoPrelude.lean)"]
+    "translators/go2lean re-translates the statement blocks that clamp a typedef.Bool (proto/value.go Bool: `num := uint64(v); if v > 1 {…}`; proto/value_marshal.go case TypeBool; proto/value_unmarshal.go the body of the loop over a bool array) and the eight fixed-width scalar cases + the bool-array case + the three unsigned fixed-width array cases (TypeSliceUint16/32/64) of Value.MarshalAppend (if arch == LittleEndian { b = binary.LittleEndian.AppendUintN(b, uintN(v.num)) } else {…}; return b, nil), selected by function name + assigned variable from the current source on every run (unit protomarshal); C06_go2lean_bool_* state that they equal Fit.Value.mkBool / boolByte / clampBool for every byte, resp. append Fit.Value.enc w arch n (what Fit.Value.marshal gives) for every v.num, byte order and buffer; additionally trusted: the rendering of binary.LittleEndian/BigEndian.AppendUint16/32/64 as Go.le16 … Go.be64 (FitModel/GoPrelude.lean)"]
